@@ -1,0 +1,14 @@
+//go:build verif
+
+package core
+
+// VerifIndexerHook, when set, is called by the chain indexer's update loop (verification harness only):
+// site 1 before an update is evaluated, 2 before each canonical header of a section is read (n = block number),
+// 3 after a section was read and before the result is committed or dropped (n = section), 4 after the update.
+var VerifIndexerHook func(site int, n uint64)
+
+func verifIndexer(site int, n uint64) {
+	if h := VerifIndexerHook; h != nil {
+		h(site, n)
+	}
+}
